@@ -368,6 +368,42 @@ func (ch c20) Run(c *core.Ctx) {
 			cl2.Finish()
 		}
 	}
+	// a Parse the handler rejects, sent a second and a third time under a name that is defined (drivers retry):
+	// whenever a Parse is answered ParseComplete, Describe announces the count of *that* text
+	if c.Batch == 4%nb && c.Begin(39700000) {
+		failing := &hs.Prog{Err: &hs.ErrSpec{Base: "the handler rejects this statement"}}
+		cl5 := hs.NewClient(env.Dial(&hs.Sess{Default: func(q string) *hs.Prog {
+			if strings.HasPrefix(q, "/*rejected*/") {
+				return failing
+			}
+			return stmtProg
+		}}))
+		if err := cl5.StartupOK("u"); err == nil {
+			for _, name := range []string{"", "s1"} {
+				good, bad := "select $1, $2", "/*rejected*/ select $1, $2, $3"
+				cl5.Step(append(pg.Parse(name, good, nil), pg.Sync()...))
+				for try := 0; try < 3; try++ {
+					out, _ := cl5.Step(append(append(pg.Parse(name, bad, nil), pg.Describe('S', name)...), pg.Sync()...))
+					msgs := mustMsgs(out)
+					c.Eval(fmt.Sprintf("rejected parse retried %d %q", try, name), true)
+					c.Count("rejected_parses_retried", 1)
+					if len(msgs) > 0 && msgs[0].T == '1' {
+						got := -1
+						for _, m := range msgs {
+							if m.T == 't' {
+								got = len(m.OIDs)
+							}
+						}
+						if want := len(wire.ParseParameters(bad)); got != want {
+							c.Violate("describe-count", "a Parse is acknowledged, but Describe announces another statement's number of parameters (a Parse the handler had rejected, sent again)", fmt.Sprintf("name %q, attempt %d: reply %s; announced %d, ParseParameters of the text just acknowledged returns %d", name, try+1, replyKinds(out), got, want), nil)
+							break
+						}
+					}
+				}
+			}
+			cl5.Finish()
+		}
+	}
 	// a handler that removes comments before it counts: what it declares is ParseParameters of what is left,
 	// and that - none at all, for a statement whose only markers sit in a comment - is what Describe announces,
 	// on this connection and, for a plain statement parsed afterwards, on the next
